@@ -14,7 +14,7 @@ from ..model import src
 from ..report import Report, key_of
 from ..terms import dag_nodes, pretty
 from ..types import Ctx
-from .common import TRUSTED_BASE, cfg_nodes_for, effects_of, facts_text, inl, resolve_expr, subst_single_assign, where
+from .common import TRUSTED_BASE, cfg_nodes_for, effects_of, facts_text, inl, normal_succ, resolve_expr, subst_single_assign, where
 
 
 def _self_calls(A, f, name):
@@ -160,6 +160,32 @@ def run(A, R: Report, thorough: bool):
         bad = [e for e in evs if id(e.root_node) not in save_nodes and not any(str(c_).split('.')[-1].startswith('save_value') for c_ in e.chain) and e.target is not None and (same_path(e.target, fpt) or (e.kind == 'FS_RENAME' and e.source is not None and same_path(e.source, fpt)))]
         R.check(not bad, 'R14.1b', f'{ci.short}.get_or_compute', key_of('entry-touched', ci.short, [e.kind for e in bad]), 'the entry is only replaced by save_value',
                 'the stored entry is deleted / rewritten outside save_value: when computer() raises (e.g. on a forced recompute) the previously stored value is lost', witness=[e.describe()[:200] for e in bad], where=where(goc))
+
+    # ---- R14.11 a value that is refused is refused before the entry is touched
+    R.rule('R14.11', 'save_value raises its own errors (a value it refuses to store) before it opens the cache file for writing: a refused write leaves the stored entry as it was', floor=1)
+    n11 = 0
+    for ci in fc.all_subclasses(include_self=False):
+        sv = ci.methods.get('save_value')
+        if sv is None:
+            continue
+        cfgs = A.cfg(sv)
+        def _opens_for_write(c_):
+            if not (isinstance(c_, ast.Call) and (src(c_.func) == 'open' or (isinstance(c_.func, ast.Attribute) and c_.func.attr == 'open'))):
+                return False
+            modes = [a_ for a_ in list(c_.args) + [k_.value for k_ in c_.keywords if k_.arg == 'mode'] if isinstance(a_, ast.Constant) and isinstance(a_.value, str) and a_.value[:1] in ('w', 'x', 'a')]
+            return bool(modes)
+        opens = [n.id for n in cfgs.nodes.values() if n.ast is not None and n.kind not in ('edge', 'dispatch', 'handler', 'with_exit', 'entry', 'exit', 'raise') and
+                 any(_opens_for_write(x) for x in ast.walk(n.ast.items[0].context_expr if isinstance(n.ast, (ast.With, ast.AsyncWith)) and n.ast.items else n.ast) if not isinstance(n.ast, (ast.With, ast.AsyncWith)) or True)]
+        opens = [i for i in opens if not isinstance(cfgs.nodes[i].ast, (ast.If, ast.For, ast.While, ast.Try))]
+        raises11 = [n.id for n in cfgs.nodes.values() if n.kind == 'stmt' and isinstance(n.ast, ast.Raise)]
+        if not opens:
+            continue
+        n11 += 1
+        late = cfgs.find_path([v for o_ in opens for v in normal_succ(cfgs, o_)], raises11) if raises11 else None
+        R.check(late is None, 'R14.11', f'{ci.short}.save_value', key_of('refuse-after-truncate', ci.short, late is None), 'refusals precede the open for writing',
+                'save_value refuses the value (raises) after the cache file was opened for writing, i.e. truncated: a forced recomputation that yields a refused value (None with allow_nones=False) '
+                'leaves an empty entry where a complete one was stored - later calls report NO_VALUE / recompute', witness=cfgs.describe_path(late) if late else None, where=where(sv))
+    R.require(n11 >= 1, 'anchor: no save_value that opens its file for writing')
 
     # ---- R14.2 / R14.5 per entry point
     R.rule('R14.2', 'around load_value: CacheException propagates; any other exception is not returned from and falls through to recompute / NO_VALUE', floor=2)
